@@ -392,8 +392,15 @@ impl Execute for ast::Pipeline {
             wait_for_pipeline_processes_and_update_status(self, spawn_results, shell, &params)
                 .await?;
 
-        // Invert the exit code if requested.
-        if self.bang {
+        // Invert the exit code if requested; `exit n` and `return n` take effect with the status
+        // they were given.
+        if self.bang
+            && !matches!(
+                result.next_control_flow,
+                crate::ExecutionControlFlow::ExitShell
+                    | crate::ExecutionControlFlow::ReturnFromFunctionOrScript
+            )
+        {
             result.exit_code = ExecutionExitCode::from(if result.is_success() { 1 } else { 0 });
         }
 
